@@ -44,12 +44,13 @@ Notation node_of := (node_of tasks).
 Definition set_status (d : dstate) (k : name) (s : status) : dstate :=
   set_node d k (nd_st (node_of d k) s).
 
-(* Runner._handle_task_error (56-72) *)
-Definition handle_error (r : rstate) (k : name) (kind : N) : rstate :=
-  {| r_d := set_status (r_d r) k SFailure;
+(* Runner._handle_task_error (56-72); [st] = SFailure, or SFailureV when the task's values are set *)
+Definition handle_error_gen (st : status) (r : rstate) (k : name) (kind : N) : rstate :=
+  {| r_d := set_status (r_d r) k st;
      r_final := if (kind =? kind_failed) && negb (r_final r =? 2) then 1 else 2;
      r_stop := if continue_ then r_stop r else true;
      r_td := r_td r; r_tr := r_tr r ++ [ERemove k; EFailure k kind] |}.
+Definition handle_error := handle_error_gen SFailure.
 
 Definition get_args (r : rstate) (k : name) : bool * rstate :=
   if t_argerr (get_task k) then (false, handle_error r k kind_dep) else (true, r).
@@ -93,7 +94,7 @@ Definition process_result (r : rstate) (k : name) : rstate :=
   | OOk => emit (with_d r (set_status (r_d r) k SSuccess)) [ESave k; ESuccess k]
   | OFail => handle_error r k kind_failed
   | OError => handle_error r k kind_error
-  | OSaveErr => handle_error r k kind_dep
+  | OSaveErr => handle_error_gen SFailureV r k kind_dep
   | OInterrupt => r     (* not reached: the exception escapes before *)
   end.
 
